@@ -32,6 +32,12 @@ func (s *Site) Close() {
 }
 
 var scratchBase = func() string {
+	// the driver's per-run directory (it removes it when the run ends)
+	if d := os.Getenv("VERIF_SCRATCH"); d != "" {
+		if st, err := os.Stat(d); err == nil && st.IsDir() {
+			return d
+		}
+	}
 	if st, err := os.Stat("/dev/shm"); err == nil && st.IsDir() {
 		return "/dev/shm"
 	}
